@@ -46,6 +46,7 @@ CONSTANTS M,            \* slots on the ring
           NRef, NUnk,   \* objects in the binned (reference) and the unbinned (unknown) catalog
           ZCells,       \* redshift cells an object may take
           Weights,      \* weights an object may take
+          MaxD,         \* largest separation (steps) reported per distance in the expected record
           PrintEvery,   \* print the expected record of every PrintEvery-th scenario (1 = all)
           Deviations
 
@@ -103,6 +104,14 @@ CountAuto(C, R, s, b, i, j) ==
                    /\ InScale(s, b, R[k].s, R[l].s) }
     IN SumF([p \in P |-> R[p[1]].w * R[p[2]].w], P)
 
+(* the same sum restricted to pairs exactly d steps apart (for separation weighting: the
+   driver multiplies by the power-law factor of the fine separation bin, floats stay outside) *)
+CountD(C, R, U, b, i, j, d) ==
+    LET P == { <<k, l>> \in (1..Len(R)) \X (1..Len(U)) :
+                   /\ Nearest(C, R[k].s) = i /\ Nearest(C, U[l].s) = j
+                   /\ BinOf(R[k].z) = b /\ DistM(R[k].s, U[l].s) = d }
+    IN SumF([p \in P |-> R[p[1]].w * U[p[2]].w], P)
+
 SumW1(C, R, b, i) == SumF([k \in 1..Len(R) |-> R[k].w], { k \in Members(C, R, i) : BinOf(R[k].z) = b })
 
 (* pruning *)
@@ -152,6 +161,10 @@ LinkSymmetric == \A i \in Patches, j \in Patches : Linked(Centres, ref, unk, i, 
 SelfLinked == \A i \in Patches : Linked(Centres, ref, unk, i, i)
 
 (* C01/C10: counts partition: every in-scale pair is counted in exactly one cell; objects outside the binning nowhere *)
+ByDistanceAgrees ==      \* the per-distance decomposition adds up to the cell counts
+    \A s \in 1..NS, b \in Bins, i \in Patches, j \in Patches :
+        Count(Centres, ref, unk, s, b, i, j)
+          = SumF([d \in 1..MaxD |-> IF Lo[s][b] < 2 * d /\ 2 * d <= Hi[s][b] THEN CountD(Centres, ref, unk, b, i, j, d) ELSE 0], 1..MaxD)
 TotalsAgree ==
     \A s \in 1..NS :
         SumF([x \in Bins \X Patches \X Patches |-> Count(Centres, ref, unk, s, x[1], x[2], x[3])], Bins \X Patches \X Patches)
@@ -198,6 +211,7 @@ Expected ==
       auto |-> [s \in 1..NS |-> [b \in Bins |-> [i \in Patches |-> [j \in Patches |->
                     IF i <= j THEN CountAuto(Centres, ref, s, b, i, j) ELSE 0]]]],
       binw |-> [b \in Bins |-> [i \in Patches |-> SumW1(Centres, ref, b, i)]],
+      bydist |-> [b \in Bins |-> [i \in Patches |-> [j \in Patches |-> [d \in 1..MaxD |-> CountD(Centres, ref, unk, b, i, j, d)]]]],
       lost |-> \E s \in 1..NS, b \in Bins, i \in Patches, j \in Patches :
                   ~Linked(Centres, ref, unk, i, j) /\ Count(Centres, ref, unk, s, b, i, j) > 0 ]
 
